@@ -4,6 +4,7 @@
 //verif:shard VerifC14aTrim 12
 //verif:shard VerifC14cEmergency 14
 //verif:shard VerifC14dDecayer 3
+//verif:obligation C14.f a peer whose last connection goes away and which reconnects while a trim is between collecting and selecting its candidates (the window in which the trim reads connection statistics): afterwards every peer with an open connection is still tracked with exactly that connection and the connection count equals what the notifications imply; the vanished connection is not selected
 //verif:obligation C14.d decaying tags through the real decayer goroutine (process loop) driven by benbjohnson's mock clock: on every history of 3 (thorough 4) operations from {Bump(delta 1..30), one tick, Remove} with a fixed-step decay function of symbolic step 1..20 and a static tag of symbolic value: after every operation the peer's cached value equals the sum of its static and decaying tag values, and a decaying value that reaches zero or below - also when the decay function overshoots below zero - is removed together with exactly its own contribution
 //verif:obligation C14.a getConnsToClose from an arbitrary manager state: up to 3 (thorough 4) tracked peers with symbolic tag value, temporary flag, first-seen instant, protection, 0..2 connections each (thorough: with symbolic direction and stream count), symbolic watermarks, grace period and clock: no connection of a protected peer or of a peer inside its grace period is selected; nothing is selected when the connection count is at or below the low watermark or the manager is disabled; a peer's connections are selected all or none; otherwise at most low-watermark connections remain among the eligible peers; no peer is closed while a lower-valued eligible (non-temporary, connected) peer is kept
 //verif:obligation C14.b bookkeeping steps: TagPeer / UntagPeer / UpsertTag keep a peer's value equal to the sum of its tags for every tag history step (including re-tagging to zero); Connected / Disconnected keep the connection count equal to the number of tracked connections, ignore duplicates and unknown connections, and a peer that was only tagged before gets its grace period from the moment it connects
@@ -37,7 +38,16 @@ type vC14conn struct {
 }
 
 func (c *vC14conn) RemotePeer() peer.ID { return c.p }
+
+// what happens "meanwhile", the first time a trim looks at a connection's statistics (it does so while sorting,
+// between collecting its candidates and selecting among them)
+var vC14meanwhile func()
+
 func (c *vC14conn) Stat() network.ConnStats {
+	if f := vC14meanwhile; f != nil {
+		vC14meanwhile = nil
+		f()
+	}
 	st := network.ConnStats{NumStreams: c.streams}
 	st.Direction = network.DirOutbound
 	if c.inbound {
@@ -291,6 +301,10 @@ func VerifC14bConnected() {
 	if early {
 		cm.TagPeer(p, "t0", vRange(0, 100)) // tagged before the Connected notification arrives
 	}
+	protect := vBool()
+	if protect {
+		cm.Protect(p, "keep")
+	}
 	c1, c2 := &vC14conn{p: p, idx: 1}, &vC14conn{p: p, idx: 2}
 	nn := (*cmNotifee)(cm)
 	t1 := t0 + int64(vRange(0, 1<<45))
@@ -316,6 +330,20 @@ func VerifC14bConnected() {
 	nn.Disconnected(nil, c2)
 	_, still := cm.segments.get(p).peers[p]
 	vAssert(!still && cm.connCount.Load() == 0, "the peer is forgotten with its last connection")
+	vAssert(cm.IsProtected(p, "keep") == protect, "protection is the application's to give and take: connections coming and going never change it (a protected peer that reconnects is still protected)")
+	if protect {
+		// the peer reconnects, time passes, a trim is due: it must not pick the protected peer
+		nn.Connected(nil, c1)
+		vC14now = time.Unix(0, t1+int64(time.Hour))
+		cm.cfg.lowWater, cm.cfg.highWater, cm.cfg.gracePeriod = 1, 1, time.Minute
+		other := &vC14conn{p: vC14ids[1], idx: 1}
+		nn.Connected(nil, other)
+		vC14now = time.Unix(0, t1+int64(2*time.Hour))
+		for _, c := range cm.getConnsToClose() {
+			vAssert(c.RemotePeer() != p, "a trim never closes a protected peer, also after the peer reconnected")
+		}
+		vCover("protected-peer-reconnected")
+	}
 }
 
 // ---- C14.d: decaying tags through the real decayer goroutine and a mock clock ----
@@ -375,4 +403,52 @@ func VerifC14dDecayer() {
 	settle()
 	check()
 	d.Close()
+}
+
+// ---- C14.f: a peer that drops its last connection and reconnects while a trim is under way ----
+
+func VerifC14fReconnectDuringTrim() {
+	cm := vC14mgr()
+	t0 := int64(1 << 41)
+	vC14now = time.Unix(0, t0)
+	nn := (*cmNotifee)(cm)
+	// three peers in three different segments (the segment is chosen by the last byte of the ID)
+	a, b, x := peer.ID("p\x01"), peer.ID("p\x02"), peer.ID("p\x09")
+	ca, cb, cx := &vC14conn{p: a, idx: 1}, &vC14conn{p: b, idx: 1}, &vC14conn{p: x, idx: 1}
+	nn.Connected(nil, ca)
+	nn.Connected(nil, cb)
+	nn.Connected(nil, cx)
+	cm.TagPeer(x, "penalty", -5) // the first candidate of a trim; the two others are equally valued, so sorting them reads statistics
+	cm.cfg.lowWater, cm.cfg.highWater, cm.cfg.gracePeriod = 1+vCase(2), 2, time.Minute
+	vC14now = time.Unix(0, t0+int64(time.Hour)) // everybody is out of the grace period
+	cx2 := &vC14conn{p: x, idx: 2}
+	reconnect := vBool()
+	if reconnect {
+		vC14meanwhile = func() { // while the trim sorts its candidates (comparing the two other peers)
+			nn.Disconnected(nil, cx)
+			nn.Connected(nil, cx2)
+		}
+		vCover("reconnected-during-the-trim")
+	}
+	sel := cm.getConnsToClose()
+	vC14meanwhile = nil
+	// what the notifications delivered imply
+	open := map[peer.ID]*vC14conn{a: ca, b: cb, x: cx}
+	if reconnect {
+		open[x] = cx2
+	}
+	tracked := 0
+	for id, c := range open {
+		inf := cm.segments.get(id).peers[id]
+		vAssert(inf != nil, "a peer with an open connection stays tracked, whatever a concurrent trim does")
+		if inf != nil {
+			_, has := inf.conns[c]
+			vAssert(has && len(inf.conns) == 1, "exactly its open connection is tracked")
+			tracked += len(inf.conns)
+		}
+	}
+	vAssert(int(cm.connCount.Load()) == 3 && tracked == 3, "the connection count equals what the notifications delivered imply")
+	for _, c := range sel {
+		vAssert(c != network.Conn(cx) || !reconnect, "a connection that is already gone is not selected for closing")
+	}
 }
